@@ -7,17 +7,40 @@
   (`Dispatch.recvHandleWith c`, model of `recv_handle`) are written against the fields of `c` only,
   and every guarantee below is proved for EVERY lawful codec; the built-in serial codec and every
   valid member of the parameterised family (`Family.codec p`: any start byte, header of 3..8 bytes
-  with the length (1/2 bytes, LE/BE), id and filler fields in any order behind the start byte, footer
+  with the length (1..4 bytes, LE/BE), id and filler fields in any order behind the start byte, footer
   of 1..4 bytes: XOR / additive sum / CRC-32) are proved lawful, so the C03 / C02-dispatch / C17
   guarantees hold for them as one-line corollaries.
+
+  "A complete client session" (requests, device description, stream delivery) under a custom codec:
+  section "the complete client session" below.  The request / response builders are modelled against
+  the codec object only (`Generic.lean`: payload from the message codecs of C05 / C06 / C15, framing
+  from `c.frameCreate`; at `Serial.codec` they ARE the models used by C05 / C06 / C15 and `Props/E2E.lean`),
+  and the three end-to-end guarantees of `Props/E2E.lean` §1–3 are proved for EVERY lawful codec:
+    (i)   every client request, framed by the codec, written with any padding, fires the matching
+          device-side callback with exactly the NxScope payload, which the device-side decoder
+          understands as what the caller asked (`request_*_generic`);
+    (ii)  every device response (common info, channel info, ACK) framed by the codec, received under
+          any chunking and between any other valid frames, is delivered once and decodes on the client
+          to the device's configuration (`*_response_generic`, `description_roundtrip_*_generic`);
+    (iii) stream frames framed by the codec, any chunking → exactly the samples (`stream_pipeline_generic`).
+  Not restated generically: the machine-level forms of E2E §3 (`device_describes_*`), because the simulated
+  device of nxslib (`DummyDev`) constructs `ParseRecv(cb)` with the built-in codec — no codec can be
+  plugged in there; and the Config / Handshake state machines (C07 / C09 / C11), whose transitions are
+  functions of the DECODED frames delivered by (ii) — their correspondence under custom codecs is
+  established by differential sessions in the check, not by a theorem.
 -/
 import NxsModel.Gen.FrameUse
 import NxsModel.Lemmas.Family
+import NxsModel.Lemmas.Generic
 import NxsModel.Props.C03
 namespace Nxs.C20
 open Nxs
 open Nxs.Serial (Hdr Frame)
 open Nxs.Dispatch (Disp recvHandle recvHandleWith cbHandle)
+open Nxs.Pad (ClientReq)
+open Nxs.Generic (ValidFrames wireOfFrames)
+open Nxs.Spec Nxs.Spec.StreamWire
+open Nxs.Stream (Sample Chan UserType)
 
 /-! ### who honours the interface -/
 
@@ -59,23 +82,8 @@ theorem dispatch_eq_decode (c : Codec) (hc : LawfulCodec c) (d : Bytes) :
     start-byte-free bytes precede it and whatever follows it -/
 theorem created_dispatched (c : Codec) (hc : LawfulCodec c) (fid : Nat) (p f pre post : Bytes)
     (hcr : c.frameCreate fid (some p) = .ok f) (hid : fid ≤ 8) (hpre : ∀ b ∈ pre, b ≠ c.sof) :
-    recvHandleWith c (pre ++ f ++ post) = cbHandle fid p := by
-  obtain ⟨hdec, h, hh, _⟩ := hc.frameCreate_decode fid p f hcr hid
-  have hf0 : c.hdrFind f = some 0 := Reasm.hdrFind_of_hdr hc hh
-  rw [dispatch_eq_decode c hc, hc.hdrFind_eq, List.append_assoc,
-    findByte_append_of_not_mem c.sof pre (f ++ post) hpre]
-  have hf1 : findByte c.sof (f ++ post) = some 0 := by
-    rw [hc.hdrFind_eq] at hf0
-    cases f with
-    | nil => simp [findByte] at hf0
-    | cons x xs =>
-      have := findByte_some hf0
-      simp at this
-      rw [List.cons_append, this, findByte_cons_self]
-  rw [hf1]
-  simp only [Option.map]
-  have e : (pre ++ (f ++ post)).drop (0 + pre.length) = f ++ post := by simp
-  rw [e, Dispatch.frameDecode_append hc f post _ hdec]
+    recvHandleWith c (pre ++ f ++ post) = cbHandle fid p :=
+  Generic.created_dispatched hc fid p f pre post hcr hid hpre
 
 /-- C17 `padded_same`, generalised.  NO side condition on the start byte is needed: the hypothesis
     that the receiver reacts to `w` at all already places the first start byte inside `w`, so the
@@ -182,6 +190,207 @@ theorem family_created_dispatched (p : Family.Params) (hp : p.valid) (fid : Nat)
   have := created_dispatched _ (family_lawful p hp) fid pl f [] (List.replicate k 0) hcr hid (by simp)
   simpa using this
 
+/-! ### the complete client session, for every lawful codec -/
+
+/-! #### (i) requests -/
+
+/-- C05 for every codec: under C05's hypotheses the builder `Parser(frame=cls)` calls for a request
+    (`ClientReq.buildWith c`: start · cmninfo · chinfo · enable / divider in single and vector form)
+    frames exactly the NxScope payload of that request under its frame id with the codec's
+    `frame_create` — it succeeds iff the codec can frame that payload, and with those bytes.
+    `hn`: the codec treats the absent payload of `frame_cmninfo` (`None`) as empty. -/
+theorem request_builder_generic (c : Codec) (hn : c.NoneEmpty) (r : ClientReq) (hr : r.Valid) :
+    r.buildWith c = c.frameCreate r.fid (some r.payload) :=
+  Generic.buildWith_eq c hn r hr
+
+/-- E2E §1 for every lawful codec: whatever the builder returned, written through the interface with
+    any write padding, makes `ParseRecv(cb, frame=cls).recv_handle` fire exactly the matching callback
+    (cmninfo 0, chinfo 1, enable 2, div 3, start 4) with exactly the NxScope payload -/
+theorem request_reaches_callback_generic (c : Codec) (hc : LawfulCodec c) (hn : c.NoneEmpty)
+    (r : ClientReq) (hr : r.Valid) (pad : Nat) (f : Bytes) (hb : r.buildWith c = .ok f) :
+    recvHandleWith c (Pad.dataAlign pad f) = .fired r.cb r.payload :=
+  Generic.request_reaches_callback hc hn r hr pad f hb
+
+/-- … also behind bytes that do not contain the codec's start byte and in front of anything -/
+theorem request_reaches_callback_noise (c : Codec) (hc : LawfulCodec c) (hn : c.NoneEmpty)
+    (r : ClientReq) (hr : r.Valid) (f pre post : Bytes) (hb : r.buildWith c = .ok f)
+    (hpre : ∀ b ∈ pre, b ≠ c.sof) :
+    recvHandleWith c (pre ++ f ++ post) = .fired r.cb r.payload := by
+  rw [request_builder_generic c hn r hr] at hb
+  rw [created_dispatched c hc r.fid r.payload f pre post hb (Generic.fid_le r) hpre]
+  exact Generic.cb_of r hr
+
+/-- … and the decoder that callback runs on the fired payload returns what the caller asked for
+    (payload level, hence the same statement for every codec: `ClientReq.Understood`) -/
+theorem request_understood_generic (r : ClientReq) (hr : r.Valid) : r.Understood :=
+  Compose.request_understood r hr
+
+/-! #### (ii) the device description and the acknowledgements -/
+
+/-- common info: whatever `frame_cmninfo_encode` of `ParseRecv(cb, frame=cls)` returned for one-byte
+    values is — between any other valid frames, under any chunking of the reads — delivered by the client
+    receive path (`Parser(frame=cls)`) once, in place, as a frame that `frame_cmninfo_decode` decodes to
+    exactly these three values -/
+theorem cmninfo_response_generic (c : Codec) (hc : LawfulCodec c) (chmax flags rxp : Nat)
+    (h1 : chmax ≤ 255) (h2 : flags ≤ 255) (h3 : rxp ≤ 255)
+    (ans : Bytes) (he : Generic.cmninfoEncode c chmax flags rxp = .ok ans)
+    (before after : List (Bytes × Frame)) (hb : ValidFrames c before) (ha : ValidFrames c after)
+    (chunks : List Bytes) (hch : chunks.flatten = wireOfFrames before ++ ans ++ wireOfFrames after) :
+    ∃ fr : Frame, Reasm.run c chunks = before.map (·.2) ++ fr :: after.map (·.2) ∧
+      Info.cmninfoDecode fr = .ok (some (chmax, flags, rxp)) :=
+  Generic.cmninfo_response hc chmax flags rxp h1 h2 h3 ans he before after hb ha chunks hch
+
+/-- channel info: the same for a configuration `⟨en, type, vdim, div, mlen, name⟩` under C06's hypotheses -/
+theorem chinfo_response_generic (c : Codec) (hc : LawfulCodec c) (en : Bool) (ty vdim div mlen : Nat)
+    (name : Bytes) (ht : ty ≤ 255) (hv : vdim ≤ 255) (hd : div ≤ 255) (hm : mlen ≤ 255)
+    (hnul : ∀ b ∈ name, b ≠ 0) (hutf : Info.validUtf8 name = true)
+    (ans : Bytes) (he : Generic.chinfoEncode c ⟨en, ty, vdim, div, mlen, name⟩ = .ok ans)
+    (before after : List (Bytes × Frame)) (hb : ValidFrames c before) (ha : ValidFrames c after)
+    (chunks : List Bytes) (hch : chunks.flatten = wireOfFrames before ++ ans ++ wireOfFrames after) :
+    ∃ fr : Frame, Reasm.run c chunks = before.map (·.2) ++ fr :: after.map (·.2) ∧
+      Info.chinfoDecode fr = .ok (some ⟨en, ty, vdim, div, mlen, name⟩) :=
+  Generic.chinfo_response hc en ty vdim div mlen name ht hv hd hm hnul hutf ans he before after hb ha chunks hch
+
+/-- ACK: a 32-bit return code arrives as "success" exactly when it is 0, and unchanged otherwise -/
+theorem ack_response_generic (c : Codec) (hc : LawfulCodec c) (r : Int) (hlo : -2147483648 ≤ r)
+    (hhi : r ≤ 2147483647) (ans : Bytes) (he : Generic.ackEncode c r = .ok ans)
+    (before after : List (Bytes × Frame)) (hb : ValidFrames c before) (ha : ValidFrames c after)
+    (chunks : List Bytes) (hch : chunks.flatten = wireOfFrames before ++ ans ++ wireOfFrames after) :
+    ∃ fr : Frame, Reasm.run c chunks = before.map (·.2) ++ fr :: after.map (·.2) ∧
+      Info.ackDecode fr = .ok (some (if r = 0 then (true, 0) else (false, r))) :=
+  Generic.ack_response hc r hlo hhi ans he before after hb ha chunks hch
+
+/-- E2E §3 `description_roundtrip_cmninfo` for every lawful codec, the whole exchange: the request the
+    client built, written with any padding, fires the `cmninfo` callback; the device's answer, split
+    into arbitrary reads and reassembled, decodes to the device's three values and nothing else is delivered -/
+theorem description_roundtrip_cmninfo_generic (c : Codec) (hc : LawfulCodec c) (hn : c.NoneEmpty)
+    (pad chmax flags rxp : Nat) (h1 : chmax ≤ 255) (h2 : flags ≤ 255) (h3 : rxp ≤ 255) (req ans : Bytes)
+    (hreq : Generic.frameCmninfo c = .ok req) (hans : Generic.cmninfoEncode c chmax flags rxp = .ok ans) :
+    recvHandleWith c (Pad.dataAlign pad req) = .fired 0 [] ∧
+    ∀ chunks : List Bytes, chunks.flatten = ans →
+      (Reasm.run c chunks).map Info.cmninfoDecode = [.ok (some (chmax, flags, rxp))] := by
+  refine ⟨request_reaches_callback_generic c hc hn .cmninfo trivial pad req hreq, fun chunks hch => ?_⟩
+  obtain ⟨fr, hrun, hdec⟩ := cmninfo_response_generic c hc chmax flags rxp h1 h2 h3 ans hans [] []
+    (Generic.validFrames_nil c) (Generic.validFrames_nil c) chunks (by simp [wireOfFrames, hch])
+  rw [hrun]
+  simp [hdec]
+
+/-- E2E §3 `description_roundtrip_chinfo` for every lawful codec -/
+theorem description_roundtrip_chinfo_generic (c : Codec) (hc : LawfulCodec c) (hn : c.NoneEmpty)
+    (pad ch : Nat) (hch : ch ≤ 255) (en : Bool) (ty vdim div mlen : Nat) (name : Bytes)
+    (ht : ty ≤ 255) (hv : vdim ≤ 255) (hd : div ≤ 255) (hm : mlen ≤ 255) (hnul : ∀ b ∈ name, b ≠ 0)
+    (hutf : Info.validUtf8 name = true)
+    (req ans : Bytes) (hreq : Generic.frameChinfo c ch = .ok req)
+    (hans : Generic.chinfoEncode c ⟨en, ty, vdim, div, mlen, name⟩ = .ok ans) :
+    recvHandleWith c (Pad.dataAlign pad req) = .fired 1 [BitVec.ofNat 8 ch] ∧
+    ∀ chunks : List Bytes, chunks.flatten = ans →
+      (Reasm.run c chunks).map Info.chinfoDecode = [.ok (some ⟨en, ty, vdim, div, mlen, name⟩)] := by
+  refine ⟨request_reaches_callback_generic c hc hn (.chinfo ch) hch pad req hreq, fun chunks hc' => ?_⟩
+  obtain ⟨fr, hrun, hdec⟩ := chinfo_response_generic c hc en ty vdim div mlen name ht hv hd hm hnul hutf ans hans [] []
+    (Generic.validFrames_nil c) (Generic.validFrames_nil c) chunks (by simp [wireOfFrames, hc'])
+  rw [hrun]
+  simp [hdec]
+
+/-! #### (iii) the stream -/
+
+/-- E2E §2 `stream_pipeline` for every lawful codec: the device encodes the batches `bs` with
+    `frame_stream_encode` of `ParseRecv(cb, frame=cls)` (frame `fᵢ` for batch `bᵢ`; that the codec could
+    frame them is `hfs` — it replaces the 65529-byte bound of the built-in codec), the bytes
+    `f₁ ++ … ++ fₙ` travel over a link that cuts them into arbitrary reads (`chunks`, empty reads
+    included), the client receive path with `Parser(frame=cls)` reassembles and `frame_stream_decode`
+    decodes: the client obtains, frame by frame, exactly the samples of `bᵢ` that carry data or metadata,
+    complete, once, in device order; nothing else.  Hypotheses per batch as in C15. -/
+theorem stream_pipeline_generic (c : Codec) (hc : LawfulCodec c) (user : List UserType) (L : List Chan)
+    (bs : List (List Sample)) (fs : List Bytes) (chunks : List Bytes)
+    (hrep : ∀ b ∈ bs, ∀ s ∈ b, Representable user s) (hL : ∀ b ∈ bs, LayoutAgrees L b)
+    (hne : ∀ b ∈ bs, ∃ s ∈ b, carries s = true)
+    (hfs : bs.map (Generic.frameStreamEncode c user) = fs.map fun f => .ok (some f))
+    (hch : chunks.flatten = fs.flatten) :
+    (Reasm.run c chunks).map (Stream.frameStreamDecode L user)
+      = bs.map fun b => .ok (some (0, (b.filter carries).map (decodedForm user))) :=
+  Generic.stream_pipeline hc user L bs fs chunks hrep hL hne hfs hch
+
+/-! #### the built-in codec: the generic statements speak about the models of C05 / C06 / C15 / E2E -/
+
+/-- with the built-in codec `frameWith` is the NxScope wire frame of C01 -/
+theorem serial_frameWith_eq_wire (fid : Nat) (p : Bytes) (hp : p.length ≤ 65529) (hf : fid ≤ 255) :
+    Generic.frameWith Serial.codec fid p = .ok (wire fid p) :=
+  Generic.serial_frameWith_eq_wire fid p hp hf
+
+/-- at `Serial.codec` the generic builders are the builders of `Requests.lean` / `Info.lean` /
+    `Stream.lean` (the ones C05, C06, C15 and `Props/E2E.lean` are about), and the built-in codec meets
+    both hypotheses of the generic theorems -/
+theorem serial_instances :
+    LawfulCodec Serial.codec ∧ Serial.codec.NoneEmpty ∧
+    (∀ r : ClientReq, r.buildWith Serial.codec = r.build) ∧
+    (∀ a b x : Int, Generic.cmninfoEncode Serial.codec a b x = Info.cmninfoEncode a b x) ∧
+    (∀ cfg, Generic.chinfoEncode Serial.codec cfg = Info.chinfoEncode cfg) ∧
+    (∀ r, Generic.ackEncode Serial.codec r = Info.ackEncode r) ∧
+    (∀ user ss, Generic.frameStreamEncode Serial.codec user ss = Stream.frameStreamEncode user ss) ∧
+    recvHandleWith Serial.codec = recvHandle :=
+  ⟨serial_lawful, Generic.serial_noneEmpty, ClientReq.buildWith_serial,
+   fun a b x => (Generic.serial_cmninfoEncode a b x).symm, fun cfg => (Generic.serial_chinfoEncode cfg).symm,
+   fun r => (Generic.serial_ackEncode r).symm, fun u ss => (Generic.serial_frameStreamEncode u ss).symm,
+   serial_dispatch_is_generic.symm⟩
+
+/-- E2E §1 (`E2E.request_reaches_callback`, also the statement C17 ∘ C05 ∘ C02 of the built-in codec)
+    IS the `Serial.codec` instance of `request_reaches_callback_generic` -/
+theorem serial_request_reaches_callback (r : ClientReq) (hr : r.Valid) (pad : Nat) :
+    ∃ f, r.build = .ok f ∧ recvHandle (Pad.dataAlign pad f) = .fired r.cb r.payload :=
+  Generic.serial_request_reaches_callback r hr pad
+
+/-! #### the family -/
+
+/-- every family member treats the absent payload as empty -/
+theorem family_noneEmpty (p : Family.Params) : (Family.codec p).NoneEmpty := Generic.family_noneEmpty p
+
+/-- a valid family member frames every payload of up to 243 bytes (every request to a device of up to
+    241 channels, common info, ACK, channel info with a name of up to 238 bytes) -/
+theorem family_create_small (p : Family.Params) (hp : p.valid) (fid : Nat) (pl : Bytes) (hfid : fid ≤ 255)
+    (hpl : pl.length ≤ 243) : ∃ f, (Family.codec p).frameCreate fid (some pl) = .ok f :=
+  Generic.family_create_small p hp fid pl hfid hpl
+
+/-- (i) for the family: every valid request whose payload fits the member's length field is built, and,
+    written with any padding, fires the matching callback with the NxScope payload -/
+theorem family_request_reaches_callback (p : Family.Params) (hp : p.valid) (r : ClientReq) (hr : r.Valid)
+    (pad : Nat) (hfit : Family.fits p.fields (Family.hdrLen p + r.payload.length + p.foot.len) = true) :
+    ∃ f, r.buildWith (Family.codec p) = .ok f ∧
+      recvHandleWith (Family.codec p) (Pad.dataAlign pad f) = .fired r.cb r.payload := by
+  obtain ⟨f, hf⟩ := Generic.family_create_ok p r.fid r.payload (by have := Generic.fid_le r; omega) hfit
+  have hb : r.buildWith (Family.codec p) = .ok f := by
+    rw [request_builder_generic _ (family_noneEmpty p) r hr]; exact hf
+  exact ⟨f, hb, request_reaches_callback_generic _ (family_lawful p hp) (family_noneEmpty p) r hr pad f hb⟩
+
+/-- (ii) for the family: the common-info answer always exists and is decoded to the device's values
+    under every chunking -/
+theorem family_description_cmninfo (p : Family.Params) (hp : p.valid) (chmax flags rxp : Nat)
+    (h1 : chmax ≤ 255) (h2 : flags ≤ 255) (h3 : rxp ≤ 255) :
+    ∃ ans, Generic.cmninfoEncode (Family.codec p) chmax flags rxp = .ok ans ∧
+      ∀ chunks : List Bytes, chunks.flatten = ans →
+        (Reasm.run (Family.codec p) chunks).map Info.cmninfoDecode = [.ok (some (chmax, flags, rxp))] := by
+  obtain ⟨ans, hans⟩ := family_create_small p hp 2
+    [BitVec.ofNat 8 chmax, BitVec.ofNat 8 flags, BitVec.ofNat 8 rxp] (by omega) (by simp)
+  have he : Generic.cmninfoEncode (Family.codec p) chmax flags rxp = .ok ans := by
+    unfold Generic.cmninfoEncode
+    rw [Info.cmninfoData_eq chmax flags rxp h1 h2 h3, ok_bind]
+    exact hans
+  refine ⟨ans, he, fun chunks hch => ?_⟩
+  obtain ⟨fr, hrun, hdec⟩ := cmninfo_response_generic _ (family_lawful p hp) chmax flags rxp h1 h2 h3 ans he [] []
+    (Generic.validFrames_nil _) (Generic.validFrames_nil _) chunks (by simp [wireOfFrames, hch])
+  rw [hrun]
+  simp [hdec]
+
+/-- (iii) for the family -/
+theorem family_stream_pipeline (p : Family.Params) (hp : p.valid) (user : List UserType) (L : List Chan)
+    (bs : List (List Sample)) (fs : List Bytes) (chunks : List Bytes)
+    (hrep : ∀ b ∈ bs, ∀ s ∈ b, Representable user s) (hL : ∀ b ∈ bs, LayoutAgrees L b)
+    (hne : ∀ b ∈ bs, ∃ s ∈ b, carries s = true)
+    (hfs : bs.map (Generic.frameStreamEncode (Family.codec p) user) = fs.map fun f => .ok (some f))
+    (hch : chunks.flatten = fs.flatten) :
+    (Reasm.run (Family.codec p) chunks).map (Stream.frameStreamDecode L user)
+      = bs.map fun b => .ok (some (0, (b.filter carries).map (decodedForm user))) :=
+  stream_pipeline_generic _ (family_lawful p hp) user L bs fs chunks hrep hL hne hfs hch
+
 /-! ### the code reaches the codec only through the codec object (regenerated every run) -/
 
 /-- `comm.py`, `parse.py`, `parserecv.py`, `nxscope.py`, `intf/dummy.py` contain no frame literal (0x55,
@@ -189,6 +398,18 @@ theorem family_created_dispatched (p : Family.Params) (hp : p.valid) (fid : Nat)
     and no direct use of `SerialFrame` outside the default argument: every use is `self._frame.*` /
     `self._parse.frame.*` (table `Gen.FrameUse.uses`) -/
 theorem frame_uses_generic : Gen.FrameUse.noFrameLiterals = true := by decide
+
+/-- every request / response builder (`_frame_set_single/_bulk/_all`, `frame_start`, `frame_cmninfo`,
+    `frame_chinfo`; `frame_cmninfo_encode`, `frame_chinfo_encode`, `frame_stream_encode`, `frame_ack_encode`)
+    goes through the codec member `frame_create` exactly once and returns that call's result (or `None`)
+    straight to the caller — the shape `Generic.lean` transcribes: nothing is kept, cached or edited
+    between the codec and the caller -/
+theorem builders_use_codec : Gen.FrameUse.buildersUseCodec = true := by decide
+
+/-- `proto/iframe.py`: `ICommFrame` declares only the seven abstract members (no state, no `__new__`,
+    nothing a codec class inherits), `DParseHdr` / `DParseFrame` are plain records of their fields,
+    `EParseError` is NOERR / ERR / HDR / FOOT -/
+theorem interface_shape : Gen.FrameUse.interfaceShape = true := by decide
 
 /-- `_read_hdr` takes `hdr_len`, `hdr_find`, `hdr_decode` from the codec, `_read_frame` `frame_decode`,
     `recv_handle` `hdr_find`, `hdr_len`, `foot_len`, `hdr_decode`, `foot_validate` — the fields
@@ -220,5 +441,78 @@ example : (Family.codec exC).frameCreate 1 (some (List.replicate 252 0)) = .erro
   decide +kernel
 /-- not every parameter record is valid: two length fields, no id -/
 example : ¬ (⟨0x55, [.len 1 false, .len 2 true], .xor⟩ : Family.Params).valid := by decide
+
+/-! the session-level theorems: their hypotheses are satisfiable, with concrete runs -/
+
+/-- (i) a valid vector request, built with codec exA (5-byte header, CRC-32), padded to 4, dispatched -/
+example : (ClientReq.enVec 3 [true, false, true]).Valid := ⟨rfl, by omega, by omega⟩
+example : (ClientReq.enVec 3 [true, false, true]).buildWith (Family.codec exA) =
+    .ok [0xaa, 0x00, 0x0e, 0x06, 0x00, 0x01, 0x00, 0x01, 0x00, 0x01, 0x77, 0xa6, 0x0f, 0x60] := by decide +kernel
+example : recvHandleWith (Family.codec exA) (Pad.dataAlign 4
+    [0xaa, 0x00, 0x0e, 0x06, 0x00, 0x01, 0x00, 0x01, 0x00, 0x01, 0x77, 0xa6, 0x0f, 0x60]) = .fired 2 [1, 0, 1, 0, 1] := by
+  decide +kernel
+example : (ClientReq.enVec 3 [true, false, true]).payload = [1, 0, 1, 0, 1] := by decide +kernel
+/-- the `fits` hypothesis of `family_request_reaches_callback`; and a request that does NOT fit a 1-byte
+    length field (255 dividers: 3 + 257 + 1 bytes) -/
+example : Family.fits exA.fields (Family.hdrLen exA + (ClientReq.enVec 3 [true, false, true]).payload.length
+    + exA.foot.len) = true := by decide +kernel
+example : Family.fits exC.fields (Family.hdrLen exC + 257 + exC.foot.len) = false := by decide +kernel
+/-- a divider request with start byte 0x00 (codec exB), behind noise without the start byte -/
+example : (ClientReq.divSingle 4 2 200).Valid := ⟨by omega, by omega, by omega⟩
+example : (ClientReq.divSingle 4 2 200).buildWith (Family.codec exB) =
+    .ok [0x00, 0x07, 0x7e, 0x0a, 0x00, 0x02, 0xc8, 0x00, 0x01, 0x59] := by decide +kernel
+example : recvHandleWith (Family.codec exB) ([0x01, 0xff] ++ [0x00, 0x07, 0x7e, 0x0a, 0x00, 0x02, 0xc8, 0x00, 0x01, 0x59]
+    ++ [0x00, 0x00]) = .fired 3 [0, 2, 200] := by decide +kernel
+/-- both codec hypotheses hold for the built-in codec and for every family member -/
+example : LawfulCodec (Family.codec exB) ∧ (Family.codec exB).NoneEmpty :=
+  ⟨family_lawful exB (by decide), family_noneEmpty exB⟩
+
+/-- (ii) answers of a device speaking exC (3-byte header, XOR footer): ACK(-22), common info, channel info -/
+def exAck : Bytes := [0x55, 0x08, 0x04, 0xea, 0xff, 0xff, 0xff, 0x4c]
+def exChinfo : Bytes := [0x55, 0x0b, 0x03, 0x01, 0x8a, 0x03, 0xc8, 0x01, 0x63, 0x68, 0x17]
+example : Generic.ackEncode (Family.codec exC) (-22) = .ok exAck := by decide +kernel
+example : Generic.chinfoEncode (Family.codec exC) ⟨true, 0x8a, 3, 200, 1, [0x63, 0x68]⟩ = .ok exChinfo := by
+  decide +kernel
+example : Generic.cmninfoEncode (Family.codec exB) 11 3 16 =
+    .ok [0x00, 0x02, 0x7e, 0x0a, 0x0b, 0x03, 0x10, 0x00, 0x00, 0xa8] := by decide +kernel
+/-- `ValidFrames` is inhabited by non-empty lists: the ACK frame above -/
+theorem ex_valid : ValidFrames (Family.codec exC) [(exAck, ⟨4, [0xea, 0xff, 0xff, 0xff]⟩)] := by
+  intro q hq
+  rw [List.mem_singleton] at hq
+  subst hq
+  exact (family_lawful exC (by decide)).frameCreate_decode 4 [0xea, 0xff, 0xff, 0xff] exAck (by decide +kernel) (by omega)
+/-- the channel-info answer between two ACK frames, read in pieces (split inside a header, empty read) -/
+example : ∃ fr : Frame,
+    Reasm.run (Family.codec exC) [exAck ++ exChinfo.take 2, [], exChinfo.drop 2 ++ exAck.take 5, exAck.drop 5] =
+      [⟨4, [0xea, 0xff, 0xff, 0xff]⟩] ++ fr :: [⟨4, [0xea, 0xff, 0xff, 0xff]⟩] ∧
+      Info.chinfoDecode fr = .ok (some ⟨true, 0x8a, 3, 200, 1, [0x63, 0x68]⟩) :=
+  chinfo_response_generic _ (family_lawful exC (by decide)) true 0x8a 3 200 1 [0x63, 0x68] (by omega) (by omega)
+    (by omega) (by omega) (by decide) (by decide +kernel) exChinfo (by decide +kernel) _ _ ex_valid ex_valid _
+    (by decide +kernel)
+example : (Reasm.run (Family.codec exC) [exAck ++ exChinfo.take 2, [], exChinfo.drop 2 ++ exAck.take 5,
+    exAck.drop 5]).map Info.chinfoDecode =
+      [.ok none, .ok (some ⟨true, 0x8a, 3, 200, 1, [0x63, 0x68]⟩), .ok none] := by decide +kernel
+
+/-- (iii) one batch (an INT64 sample and a fixed-point sample with one metadata byte) streamed by a device
+    speaking exC, read in three pieces -/
+def exBatch : List Sample := [⟨1, Gen.Ids.tyINT64, 1, 0, [.int (-2)], []⟩, ⟨0, Gen.Ids.tyB8, 1, 1, [.fixed 256 8], [6]⟩]
+def exStreamFrame : Bytes :=
+  [0x55, 0x12, 0x01, 0x00, 0x01, 0xfe, 0xff, 0xff, 0xff, 0xff, 0xff, 0xff, 0xff, 0x00, 0x00, 0x01, 0x06, 0x41]
+def exLayout : List Chan := [⟨Gen.Ids.tyB8, 1, 1⟩, ⟨Gen.Ids.tyINT64, 1, 0⟩]
+theorem ex_stream_hyps :
+    (∀ b ∈ [exBatch], ∀ s ∈ b, Representable [] s) ∧ (∀ b ∈ [exBatch], LayoutAgrees exLayout b) ∧
+    (∀ b ∈ [exBatch], ∃ s ∈ b, carries s = true) ∧
+    [exBatch].map (Generic.frameStreamEncode (Family.codec exC) []) = [exStreamFrame].map fun f => .ok (some f) := by
+  refine ⟨by decide +kernel, ?_, by decide +kernel, by decide +kernel⟩
+  intro b hb
+  rw [List.mem_singleton] at hb
+  subst hb
+  unfold LayoutAgrees
+  decide +kernel
+example : ∀ chunks : List Bytes, chunks.flatten = [exStreamFrame].flatten →
+    (Reasm.run (Family.codec exC) chunks).map (Stream.frameStreamDecode exLayout []) =
+      [exBatch].map fun b => .ok (some (0, (b.filter carries).map (decodedForm []))) :=
+  fun chunks h => stream_pipeline_generic _ (family_lawful exC (by decide)) [] exLayout _ _ chunks
+    ex_stream_hyps.1 ex_stream_hyps.2.1 ex_stream_hyps.2.2.1 ex_stream_hyps.2.2.2 h
 
 end Nxs.C20
